@@ -12,9 +12,12 @@ import vlib
 
 META = {
     "technique": "TLC exhaustive on spec/rpc/RpcAuth.tla (policy table of all 72 methods as part of the "
-                 "specification; matrix 72 methods x 10 credential classes x auth on/off = 1440 states with "
-                 "lattice / monotonicity / exposure invariants and the ASSUME that every sensitive method needs "
-                 "write or admin) + case enumeration: every cell is one real JSON-RPC call (HTTP, WebSocket for "
+                 "specification; matrix 72 methods x 10 credential classes x 5 presentation forms (Bearer, ?token=, "
+                 "bare, lower-case, Basic; json / form-urlencoded for callers without credentials) x auth on/off = "
+                 "6768 states with lattice / monotonicity / exposure invariants and the ASSUME that every sensitive "
+                 "method needs write or admin) and on spec/rpc/RpcSession.tla (all histories of one token on one "
+                 "server: 3 uses, expiry before / between / never; authorisation has no memory) + case enumeration / "
+                 "behaviour replay: every history is replayed with one real token across its real expiry; every cell is one real JSON-RPC call (HTTP, WebSocket for "
                  "subscriptions) against the real rpc.Server with the real API structs registered as "
                  "registerEndpoints does, real JWTs, reflection-generated module stubs that record being reached",
     "level_text": "Every method of every registered module, called with every credential class (no token, "
@@ -40,7 +43,11 @@ META = {
 def run(ctx):
     ctx.assume("the policy table Required[module.method] of RpcAuth.tla is the intended policy")
     ctx.assume("module implementations are stubs; only reachability is observed")
-    r = ctx.tlc("rpc/RpcAuth.tla", "rpc/RpcAuth.cfg", workers=4, timeout=300, heap="2g")
+    r = ctx.tlc("rpc/RpcAuth.tla", "rpc/RpcAuth.cfg", workers=4, timeout=600, heap="2g")
+    rs = ctx.tlc("rpc/RpcSession.tla", "rpc/RpcSession.cfg", workers=4, timeout=600, heap="2g")
+    behaviours = rs.printed.get("BEH", [])
+    if rs.ok and not behaviours:
+        ctx.inconclusive("TLC printed no behaviours of RpcSession.tla")
     cases = r.printed.get("CASE", [])
     if not r.ok or not cases or not r.printed.get("TABLE"):
         if r.ok:
@@ -48,12 +55,12 @@ def run(ctx):
         return
     table = r.printed["TABLE"][0]
     n_methods = len(table)
-    creds = sorted({c["cred"] for c in cases})
-    if len(cases) != n_methods * len(creds) * 2:
-        ctx.inconclusive("matrix incomplete: %d cells for %d methods x %d credentials x 2" % (len(cases), n_methods, len(creds)))
+    presentations = sorted({(c["cred"], c["form"]) for c in cases})
+    if len(cases) != n_methods * len(presentations) * 2:
+        ctx.inconclusive("matrix incomplete: %d cells for %d methods x %d presented credentials x 2" % (len(cases), n_methods, len(presentations)))
     path = os.path.join(ctx.work, "cases.json")
     with open(path, "w") as f:
-        json.dump({"cases": cases, "table": table, "granted": r.printed["GRANTED"][0],
+        json.dump({"cases": cases, "behaviours": behaviours, "table": table, "granted": r.printed["GRANTED"][0],
                    "sensitive": r.printed["SENSITIVE"][0]}, f)
     rep = ctx.go_driver("rpc", env={"VERIF_CASES": path, "VERIF_REPO_PATH": vlib.REPO}, timeout=900)
     c = rep.get("counters", {})
@@ -65,17 +72,27 @@ def run(ctx):
             ctx.note(v)
     # vacuity: all kinds of answers seen, both servers used, every method callable
     missing = [k for k in ("wire_reached", "wire_missing-permission", "wire_unauthorized", "calls_auth-on",
-                           "calls_auth-off", "sensitive_reached_with_write_or_admin") if c.get(k, 0) == 0]
+                           "calls_auth-off", "sensitive_reached_with_write_or_admin", "calls_repeated",
+                           "histories_across_expiry", "history_expired_refused_after_valid_use",
+                           "client_calls_agree", "batch_elements_agree") if c.get(k, 0) == 0]
+    missing += ["calls_form_" + f for f in sorted({k["form"] for k in cases}) if c.get("calls_form_" + f, 0) == 0]
+    if behaviours and c.get("histories", 0) != len(behaviours):
+        ctx.inconclusive("driver replayed %d of %d histories" % (c.get("histories", 0), len(behaviours)))
+    if c.get("histories_discarded_slow", 0) * 5 > max(1, c.get("histories", 0)):
+        ctx.inconclusive("machine too slow: %d of %d histories could not be observed before their token expired"
+                         % (c.get("histories_discarded_slow", 0), c.get("histories", 0)))
     if missing:
         ctx.inconclusive("vacuity: never observed on the real server: %s" % missing)
     if s.get("methods_callable", 0) != s.get("methods_by_reflection", -1):
         ctx.inconclusive("only %s of %s methods could be called" % (s.get("methods_callable"), s.get("methods_by_reflection")))
     min_calls = len([k for k in cases if k["m"] in table])
-    if c.get("calls", 0) < min_calls and not rep.get("inconclusive"):
-        ctx.inconclusive("driver performed %d calls for %d cells" % (c.get("calls", 0), min_calls))
+    done = c.get("calls", 0) + c.get("cells_not_applicable", 0)
+    if done < min_calls and not rep.get("inconclusive"):
+        ctx.inconclusive("driver performed %d calls for %d cells" % (done, min_calls))
     if c.get("refusal_kind_differs", 0):
-        ctx.note("refusal kind differs in %d cells: %s" % (c["refusal_kind_differs"], s.get("refusal_kind_differs_example")))
-    ctx.cover(traces_validated_against_impl=c.get("cells_agree", 0),
+        ctx.note("refusal kind differs in %d cells: %s" % (c["refusal_kind_differs"],
+                 "; ".join(str(v) for k, v in s.items() if k.startswith("refusal_kind_differs_example"))))
+    ctx.cover(traces_validated_against_impl=c.get("cells_agree", 0) + c.get("histories", 0) - c.get("histories_discarded_slow", 0),
               evaluations=c.get("calls", 0),
               distinct_nontrivial=len([k for k in cases if k["auth"]]),
               rule="one case per cell of the matrix method x credential class x auth; non-trivial = authentication "
